@@ -29,7 +29,11 @@ typedef struct vbi_decoder vbi_decoder;
 #endif
 typedef enum { VBI_WST_LEVEL_1, VBI_WST_LEVEL_1p5, VBI_WST_LEVEL_2p5, VBI_WST_LEVEL_3p5 } vbi_wst_level;
 struct caption { int carved_out; };
+#ifdef C13_REAL_CHSW
+struct teletext { struct ttx_page_link header_page; };   /* the one member vbi_chsw_reset names */
+#else
 struct teletext { int carved_out; };
+#endif
 
 #include "src/tables.h"
 /* defined BEFORE packet.c is parsed: with only the incomplete declaration `extern ... vbi_cni_table[]' in scope cbmc 6.11 checks
@@ -46,7 +50,24 @@ const struct vbi_cni_entry vbi_cni_table[4] = {
 static void c13_event(vbi_decoder *vbi, vbi_event *ev);
 static unsigned chsw_n; static unsigned chsw_nuid;
 void vbi_send_event(vbi_decoder *vbi, vbi_event *ev) { c13_event(vbi, ev); }
+#ifndef C13_REAL_CHSW
 void vbi_chsw_reset(vbi_decoder *vbi, vbi_nuid nuid) { (void) vbi; chsw_n++; chsw_nuid = nuid; }
+#else
+/* the REAL vbi_chsw_reset + vbi_reset_prog_info, extracted textually from the current /repo/src/vbi.c (Ob(patch=...)); what it calls outside the
+   announcement state is modelled: the cache hand-over (C10's subject) = call log + a fresh static network, subsystem resets = call counters */
+static cache_network CN13_NEW; static unsigned c13_n_unref, c13_n_addnet, c13_n_ttx, c13_n_cc, c13_n_trig;
+void cache_network_unref(cache_network *cn) { (void) cn; c13_n_unref++; }
+cache_network *_vbi_cache_add_network(vbi_cache *ca, const vbi_network *nk, vbi_videostd_set s) { (void) ca; (void) nk; (void) s; c13_n_addnet++; return &CN13_NEW; }
+void vbi_teletext_channel_switched(vbi_decoder *vbi) { (void) vbi; c13_n_ttx++; }
+void vbi_caption_channel_switched(vbi_decoder *vbi) { (void) vbi; c13_n_cc++; }
+void vbi_trigger_flush(vbi_decoder *vbi) { (void) vbi; c13_n_trig++; }
+#ifdef VERIF_CBMC
+int pthread_mutex_lock(pthread_mutex_t *m) { (void) m; return 0; }
+int pthread_mutex_unlock(pthread_mutex_t *m) { (void) m; return 0; }
+#endif
+#include <assert.h>
+#include "src/vbi.c"
+#endif
 size_t _vbi_strlcpy(char *dst, const char *src, size_t size) { size_t i = 0; if (size) { for (; i + 1 < size && src[i]; i++) dst[i] = src[i]; dst[i] = 0; } return i; }
 /* externs the packet.c head declares/uses but the extracted functions never call */
 struct vbi_font_descr vbi_font_descriptors[88];
@@ -62,6 +83,7 @@ static void ref_encode_link(uint8_t *raw, unsigned mag_cur, unsigned mag_link, u
   raw[4] = ref_ham8(s3); raw[5] = ref_ham8(s4 | (((rel >> 1) & 1) << 2) | (((rel >> 2) & 1) << 3));
 }
 static vbi_decoder VBI;
+static cache_network CN13;
 
 /* independent table scan */
 static unsigned ref_station(int which /*1=8301 2=8302 4=VPS*/, unsigned cni)
@@ -77,7 +99,9 @@ static unsigned ref_station(int which /*1=8301 2=8302 4=VPS*/, unsigned cni)
   return 0;
 }
 
+#ifndef EVMAX
 #define EVMAX 8
+#endif
 static struct evrec { int type; unsigned cni_vps, cni_8301, cni_8302, nuid;
                       struct { int channel, cni_type; unsigned cni, pil; int luf, mi, prf, pcs_audio; unsigned pty; int tape_delayed; } pid;   /* scalars only: see c13_event */
                       long long lt; int se; int se_valid;
@@ -175,14 +199,12 @@ V_HARNESS(h_vps_debounce)
 
 /* ---- WSS 625: KREC receptions over two arbitrary words with non-decreasing time stamps ---- */
 static int ref_wss_parity_ok(unsigned b0) { unsigned p = b0 & 15; p ^= p >> 2; p ^= p >> 1; return p & 1; }
-V_HARNESS(h_wss_debounce)
+/* the history part: from a decoder whose WSS debouncer is in its initial state (fresh decoder, or directly after a channel switch) */
+static void c13_wss_history(void)
 {
   uint8_t W[2][2], buf[2]; unsigned t, sel[KREC]; unsigned run = 0; int have_prev = 0;
   struct { int fl, ll, film, subt, ana; } cur = { 0, 0, 0, 0, 0 };
   static const int FL[8] = { 23, 41, 23, 59, 23, 59, 23, 23 }, LL[8] = { 310, 292, 274, 273, 237, 273, 310, 310 };
-  V_INIT();
-  /* VBI is a static object: zero initialised (a memset of the whole decoder costs minutes of symex) */
-  VBI.event_mask = VBI_EVENT_ASPECT | VBI_EVENT_PROG_INFO;
   in_bytes(W[0], 2); in_bytes(W[1], 2);
   V_ASSUME(!(W[0][0] == 0 && W[0][1] == 0) && !(W[1][0] == 0 && W[1][1] == 0));   /* 00 00 is the decoder's initial "last word" */
   for (t = 0; t < KREC; t++) sel[t] = in_u8() & 1;
@@ -209,8 +231,47 @@ V_HARNESS(h_wss_debounce)
       V_REACH("announced");
     } else V_ASSERT(EVN == before, "wss_no_event");
   }
+}
+V_HARNESS(h_wss_debounce)
+{
+  V_INIT();
+  /* VBI is a static object: zero initialised (a memset of the whole decoder costs minutes of symex) */
+  VBI.event_mask = VBI_EVENT_ASPECT | VBI_EVENT_PROG_INFO;
+  c13_wss_history();
   V_END();
 }
+
+#ifdef C13_REAL_CHSW
+/* ---- channel switch: the REAL vbi_chsw_reset from ANY state of the WSS debouncer / aspect announcement, identified or not; afterwards the decoder must
+ * treat every WSS history exactly like a fresh decoder (same reference as h_wss_debounce): nothing the old station sent counts as a repeat on the new one.
+ * The reset itself raises at most: one NETWORK event (only when an identified station becomes unidentified - the identified case is announced by the caller,
+ * see *_network_event_on_change) and one ASPECT event revoking an announced ratio. ---- */
+V_HARNESS(h_chsw_wss)
+{
+  unsigned identified, old_nuid, asrc, k = 0; unsigned n_net = 0, n_asp = 0, i;
+  V_INIT();
+  VBI.cn = &CN13;
+  VBI.event_mask = VBI_EVENT_ASPECT | VBI_EVENT_PROG_INFO | VBI_EVENT_NETWORK | VBI_EVENT_NETWORK_ID;
+  VBI.wss_last[0] = in_u8(); VBI.wss_last[1] = in_u8();
+  VBI.wss_rep_ct = (int) (in_u16() & 0x3FF);
+  VBI.wss_time = (double) in_u8();
+  asrc = in_u8(); V_ASSUME(asrc <= 2); VBI.aspect_source = (int) asrc;
+  in_bytes(&VBI.prog_info[0].aspect, sizeof VBI.prog_info[0].aspect);
+  old_nuid = in_u32(); VBI.network.ev.network.nuid = old_nuid;
+  VBI.network.ev.network.cni_vps = in_u16(); VBI.network.ev.network.cycle = in_u8() % 3;
+  identified = in_u32();
+  vbi_chsw_reset(&VBI, identified);
+  for (i = 0; i < EVMAX; i++) if (i < EVN) { if (EV[i].type == VBI_EVENT_NETWORK) n_net++; else if (EV[i].type == VBI_EVENT_ASPECT) n_asp++; }
+  V_ASSERT(EVN == n_net + n_asp && n_net <= 1 && n_asp <= 1, "chsw_raises_at_most_one_network_and_one_aspect_event");
+  V_ASSERT(n_net == (unsigned) (identified == 0 && old_nuid != 0), "chsw_network_event_iff_identified_station_lost");
+  V_ASSERT(n_asp == (unsigned) (asrc > 0), "chsw_aspect_revoked_iff_announced");
+  V_ASSERT(c13_n_unref == 1 && c13_n_addnet == 1 && VBI.cn == &CN13_NEW, "chsw_old_network_released_new_one_attached");
+  if (identified == 0) V_REACH("unidentified"); else V_REACH("identified");
+  (void) k;
+  c13_wss_history();
+  V_END();
+}
+#endif
 
 /* ---- 8/30 format 1: receptions over two arbitrary CNIs/times; packets from a reference encoder ---- */
 static void ref_encode_8301(uint8_t *p /*42*/, unsigned des, unsigned cni, unsigned mjd_digits[5], unsigned hms_digits[6], unsigned lto /*6 bit + sign*/)
@@ -229,8 +290,6 @@ static void ref_encode_8301(uint8_t *p /*42*/, unsigned des, unsigned cni, unsig
   p[16] = (uint8_t) (((hms_digits[2] + 1) << 4) | (hms_digits[3] + 1));
   p[17] = (uint8_t) (((hms_digits[4] + 1) << 4) | (hms_digits[5] + 1));
 }
-
-static cache_network CN13;
 
 V_HARNESS(h_8301_debounce)
 {
@@ -277,6 +336,70 @@ V_HARNESS(h_8301_debounce)
     V_ASSERT(EV[k].lt == exp_time && EV[k].se == exp_se && EV[k].se_valid, "p8301_local_time_values");
 #endif
     V_ASSERT(chsw_n == chsw_model, "p8301_cache_dropped_exactly_on_station_change");
+  }
+  V_END();
+}
+
+/* ---- 8/30 format 2: receptions over two ARBITRARY 13-byte Hamming-protected blocks (bytes 9..21 of the packet, EN 300 706 9.8.2 / EN 300 231) ----
+ * Reference = independent nearest-code-word decode (ref_unham8) + field extraction.  A block with an uncorrectable byte is a damaged reception: the
+ * packet is refused and is invisible to the debounce (no event, no state change: the NEXT clean reception behaves as if the damaged one had not been
+ * there).  Over the clean receptions the rule is the one of the other carriers: NETWORK_ID at the second consecutive identical CNI and at no other time. */
+static int ref_8302_byte(const uint8_t *blk /* bytes 9..21 */, unsigned k /* 0..5: byte pairs 10/11 .. 20/21 */)
+{ int lo = ref_unham8(blk[1 + 2 * k]), hi = ref_unham8(blk[2 + 2 * k]); if (lo < 0 || hi < 0) return -1; return (int) ref_rev8((unsigned) lo | ((unsigned) hi << 4)); }
+struct ref8302 { int valid; unsigned cni, pil, pty; };
+static struct ref8302 ref_decode_8302(const uint8_t *blk)
+{
+  struct ref8302 r; int b[6]; unsigned k; r.valid = (ref_unham8(blk[0]) >= 0); r.cni = r.pil = r.pty = 0;
+  for (k = 0; k < 6; k++) { b[k] = ref_8302_byte(blk, k); if (b[k] < 0) r.valid = 0; }
+  if (r.valid) {
+    r.cni = (((unsigned) b[0] & 0x0F) << 12) | (((unsigned) b[3] & 3) << 10) | (((unsigned) b[4] & 0xC0) << 2) | ((unsigned) b[1] & 0xC0) | ((unsigned) b[4] & 0x3F);
+    r.pil = (((unsigned) b[1] & 0x3F) << 14) | ((unsigned) b[2] << 6) | ((unsigned) b[3] >> 2);
+    r.pty = (unsigned) b[5];
+  }
+  return r;
+}
+
+V_HARNESS(h_8302_debounce)
+{
+  uint8_t L[2][13], pkt[42]; struct ref8302 R[2]; unsigned t, sel[KREC], des[KREC]; unsigned nuid_model = 0, chsw_model = 0, run = 0, last = 0;
+  V_INIT();
+  VBI.cn = &CN13;                    /* VBI static: zero initialised */
+  VBI.event_mask = VBI_EVENT_NETWORK | VBI_EVENT_NETWORK_ID | VBI_EVENT_PROG_ID;
+  in_bytes(L[0], 13); in_bytes(L[1], 13);
+  R[0] = ref_decode_8302(L[0]); R[1] = ref_decode_8302(L[1]);
+  V_ASSUME(!R[0].valid || (R[0].cni != 0 && R[0].cni != 0x0DC3));
+  V_ASSUME(!R[1].valid || (R[1].cni != 0 && R[1].cni != 0x0DC3));
+  for (t = 0; t < KREC; t++) { sel[t] = in_u8() & 1; des[t] = 2 + (in_u8() & 1); }
+  for (t = 0; t < KREC; t++) {
+    unsigned before = EVN, k = before; vbi_bool ok; const struct ref8302 *r = &R[sel[t]];
+    memset(pkt, 0x15, 42);
+    { unsigned pmag = (30u << 3) | 0; pkt[0] = ref_ham8(pmag & 15); pkt[1] = ref_ham8(pmag >> 4); }
+    pkt[2] = ref_ham8(des[t]);
+    ref_encode_link(pkt + 3, 0, 1, 0x00, 0x3F7F);
+    memcpy(pkt + 9, L[sel[t]], 13);
+    ok = parse_8_30(&VBI, pkt, 30);
+    V_ASSERT(!!ok == !!r->valid, "p8302_accepted_iff_all_protected_bytes_decode");
+    if (!r->valid) {
+      V_ASSERT(EVN == before, "p8302_damaged_packet_raises_nothing");
+      V_REACH("damaged");
+    } else {
+      run = (run > 0 && r->cni == last) ? run + 1 : 1; last = r->cni;
+      if (run == 2) {
+        unsigned id = ref_station(2, r->cni);
+        if (id != nuid_model) {
+          V_ASSERT(EVN > k && EV[k].type == VBI_EVENT_NETWORK && EV[k].cni_8302 == r->cni && EV[k].nuid == id, "p8302_network_event_on_change");
+          if (nuid_model != 0) chsw_model++;
+          nuid_model = id; k++;
+        }
+        V_ASSERT(EVN > k && EV[k].type == VBI_EVENT_NETWORK_ID && EV[k].cni_8302 == r->cni, "p8302_network_id_carries_transmitted_cni");
+        k++; V_REACH("announced");
+      }
+      /* programme id of every clean packet, exactly as transmitted */
+      V_ASSERT(EVN == k + 1 && EV[k].type == VBI_EVENT_PROG_ID, "p8302_prog_id_event_and_nothing_else");
+      V_ASSERT(EV[k].pid.cni == r->cni && EV[k].pid.pil == r->pil && EV[k].pid.pty == r->pty && EV[k].pid.cni_type == VBI_CNI_TYPE_8302, "p8302_prog_id_values");
+    }
+    V_ASSERT(chsw_n == chsw_model, "p8302_cache_dropped_exactly_on_station_change");
+    V_ASSERT(EVN <= EVMAX, "harness_event_log_large_enough");
   }
   V_END();
 }
